@@ -33,7 +33,7 @@ impl SynOpts {
 
 pub type SynStats = BTreeMap<&'static str, u32>;
 
-const NAMES: [&str; 16] = ["a", "b", "c", "x", "y", "value", "self", "t", "f", "_", "i", "k", "v", "obj", "result", "math"];
+const NAMES: [&str; 20] = ["a", "b", "c", "x", "y", "value", "self", "t", "f", "_", "i", "k", "v", "obj", "result", "math", "player_1", "a_1", "_2", "x1_"];
 const FIELDS: [&str; 8] = ["x", "y", "name", "count", "new", "value", "end_", "type"];
 const TYPE_NAMES: [&str; 8] = ["number", "string", "boolean", "any", "T", "U", "Foo", "Bar"];
 
@@ -104,7 +104,11 @@ impl<'a, 'b> Syn<'a, 'b> {
     }
 
     pub fn string(&mut self) -> Expr {
-        let pool: [(&str, &[u8]); 16] = [
+        let pool: [(&str, &[u8]); 20] = [
+            ("\"\\255\"", b"\xff"),
+            ("'\\254\\255'", b"\xfe\xff"),
+            ("\"\\0011\"", b"\x011"),
+            ("\"\\0277\"", b"\x1b7"),
             ("\"\"", b""),
             ("'a'", b"a"),
             ("\"hello\"", b"hello"),
@@ -131,8 +135,8 @@ impl<'a, 'b> Syn<'a, 'b> {
             // assembled value: crosses the generators' length / newline thresholds for the long
             // bracket form, with carriage returns, tabs, quotes, `]]`, digits after control bytes
             self.stat("assembled_string");
-            let pieces: [&[u8]; 18] = [
-                b"GET /index.html HTTP/1.1", b"\r\n", b"\n", b"\r", b"\t", b" ", b"Host: example", b"]]", b"]=]", b"'", b"\"", b"\\", b"\x01", b"7", b"\n\n\n\n\n\n", b"0123456789012345678901234567890123456789", b"--", b"\xc3\xa9",
+            let pieces: [&[u8]; 20] = [
+                b"GET /index.html HTTP/1.1", b"\r\n", b"\n", b"\r", b"\t", b" ", b"Host: example", b"]]", b"]=]", b"'", b"\"", b"\\", b"\x01", b"7", b"\n\n\n\n\n\n", b"0123456789012345678901234567890123456789", b"--", b"\xc3\xa9", b"\xff", b"\x80\xfe",
             ];
             let n = 1 + self.t.choose(6);
             let mut v: Vec<u8> = vec![];
@@ -332,7 +336,7 @@ impl<'a, 'b> Syn<'a, 'b> {
             6 => Expr::Paren(Box::new(self.expr(d - 1))),
             7 => {
                 self.stat("if_expr");
-                let n = 1 + self.t.weighted(&[6, 2]);
+                let n = 1 + self.t.weighted(&[6, 2, 2, 1]);
                 let clauses = (0..n).map(|_| (self.expr(d - 1), self.expr(d - 1))).collect();
                 Expr::IfExpr { clauses, else_: Box::new(self.expr(d - 1)) }
             }
@@ -342,7 +346,7 @@ impl<'a, 'b> Syn<'a, 'b> {
                 let mut segs = vec![];
                 for _ in 0..n {
                     if self.t.bool(160) {
-                        let lit: &[u8] = [&b"a"[..], b" ", b"%d", b"\\", b"`", b"\n", b"{", b"end"][self.t.choose(8)];
+                        let lit: &[u8] = [&b"a"[..], b" ", b"%d", b"\\", b"`", b"\n", b"{", b"end", b"\xc3\xa9", b"\x007", b"\x1b1", b"100%", b"\xff", b"\r\n"][self.t.choose(14)];
                         if !matches!(segs.last(), Some(InterpSeg::Str(_))) {
                             segs.push(InterpSeg::Str(lit.to_vec()));
                         }
